@@ -63,6 +63,12 @@ def run_once(ctx, mono, d, truth, order_names, lo, hi, chunk, wit0, default_wind
             ctx.violation('empty-window-writes-files', 'a window containing no tabulated wavelength wrote files', dict(wit, written=wrote))
         ctx.regime('window:empty')
         return
+    if not must and exc is not None:
+        # only window-end wavelengths (don't-care): treating the window as empty is accepted
+        if wrote:
+            ctx.violation('empty-window-writes-files', 'the call failed after writing files', dict(wit, written=wrote))
+        ctx.regime('window:empty')
+        return
     if exc is not None and must:
         ctx.violation('mono-raised', 'convolve_model_dir_monochromatic raised on a non-empty window: %r' % (exc,), wit)
         return
